@@ -218,6 +218,10 @@ func OnItem(it Item, fn func(Item) error) error {
 		return fn(it)
 	}
 	return OnItemCollection(it, func(col *ItemCollection) error {
+		if col == nil {
+			// a nil list is handed to the callback as a nil pointer: nothing to visit
+			return nil
+		}
 		for _, it := range *col {
 			if err := OnItem(it, fn); err != nil {
 				return err
